@@ -14,7 +14,7 @@ From Coq Require Import ZArith QArith List Bool String.
 From KV Require Import Base.Sx Base.Str Base.SelSlice Base.PySlice Base.AxisIndex Base.NdArray Gen.Generated
   Model.Flags Model.DataSet Proofs.DataSetBaseP Proofs.DataSetP Proofs.DataSetTopP Proofs.DataSetExP
   Proofs.DataSetSensP Model.DataSetPre Proofs.DataSetPreP
-  Model.DataSetFreq Proofs.DataSetFreqP.
+  Model.DataSetFreq Proofs.DataSetFreqP Model.DataSetDims Proofs.DataSetDimsP.
 From KV Require Model.Select Proofs.SelectP Model.TimeFreq Proofs.TimeFreqP.
 Import ListNotations.
 Open Scope Z_scope.
@@ -608,3 +608,50 @@ Theorem C01_freq_axis_examples :
      = Some [-(2); 0]%Q.
 Proof. exact example_axes. Qed.
 Print Assumptions C01_freq_axis_examples.
+
+(* ------------------------------------------------------------------ dimensionality of answers, keepdims *)
+
+(* tie: in /repo H5DataV2 / H5DataV3 append, as LAST transform of vis / flags / weights and iff the constructor argument
+   keepdims (default False) is set, the function that re-inserts one axis per scalar item of the second-stage index
+   (padded / truncated to three items) *)
+Theorem C01_keepdims_source : keepdims_glue = [("H5DataV2", true); ("H5DataV3", true)]%string.
+Proof. reflexivity. Qed.
+Print Assumptions C01_keepdims_source.
+
+(* for every data set, selection, kind, stored content and answered ix2: what the indexer class returns ([index_np]:
+   a scalar index drops its axis, numpy / LazyIndexer / DaskLazyIndexer) has the SAME elements in the SAME order as the
+   canonical answer of C01_elements (so every statement about elements carries over), its shape is the canonical shape
+   without the scalar-indexed axes, it has as many axes as there are non-scalar items, and as many elements;
+   with keepdims=False that is the answer, with keepdims=True (v2 / v3; vis, flags, weights) the answer has the
+   canonical shape: always 3 axes, every scalar-indexed one of length 1 *)
+Theorem C01_answer_dimensions : forall c s k S0 ix2 out, index S0 (acquire c s k) ix2 = Ok out ->
+  exists out', index_np S0 (acquire c s k) ix2 = Ok out'
+    /\ flatten (nd_body out') = flatten (nd_body out)
+    /\ nd_shape out' = drop_axes (scalar_axes (naxes k) ix2) (nd_shape out)
+    /\ size (nd_shape out') = size (nd_shape out)
+    /\ List.length (nd_shape out') = List.length (filter negb (scalar_axes (naxes k) ix2))
+    /\ (forall f, answer_shape f false k ix2 (nd_shape out') = nd_shape out')
+    /\ (forall f, (f = V2 \/ f = V3) -> k <> KTime -> k <> KRaw ->
+          answer_shape f true k ix2 (nd_shape out') = nd_shape out).
+Proof. exact answer_dims. Qed.
+Print Assumptions C01_answer_dimensions.
+
+(* FINDING C01x-F1 (repaired): before the repair the v2 / v3 flags answer for a selection that is scalar on all three
+   axes had shape (1,) instead of (), and (1, 1, 1, 1) instead of (1, 1, 1) with keepdims=True *)
+Theorem C01_flags_dimensions_refuted_before_fix :
+  answer_shape V3 false KFlags [AInt 0; AInt 0; AInt 0] (flags_np_shape_before_fix []) = [1]
+  /\ answer_shape V3 true KFlags [AInt 0; AInt 0; AInt 0] (flags_np_shape_before_fix []) = [1; 1; 1; 1]
+  /\ answer_shape V3 false KFlags [AInt 0; AInt 0; AInt 0] [] = []
+  /\ answer_shape V3 true KFlags [AInt 0; AInt 0; AInt 0] [] = [1; 1; 1].
+Proof. exact flags_dims_refuted_before_fix. Qed.
+Print Assumptions C01_flags_dimensions_refuted_before_fix.
+
+Theorem C01_answer_dimensions_example :
+  drop_axes (scalar_axes 3 [full; AInt 2; AList [0; 3]]) [5; 1; 2] = [5; 2]
+  /\ answer_shape V3 true KVis [full; AInt 2; AList [0; 3]] [5; 2] = [5; 1; 2]
+  /\ answer_shape V3 false KVis [full; AInt 2; AList [0; 3]] [5; 2] = [5; 2]
+  /\ answer_shape V4 true KVis [AInt 1] [4; 6] = [4; 6]
+  /\ answer_shape V2 true KVis [AInt 1] [4; 6] = [1; 4; 6]
+  /\ answer_shape V2 true KTime [AInt 1] [] = [].
+Proof. exact example_dims. Qed.
+Print Assumptions C01_answer_dimensions_example.
